@@ -5,6 +5,7 @@ import MsVerif.Driver.OpsPolicy
 import MsVerif.Driver.OpsSpend
 import MsVerif.Driver.OpsSat
 import MsVerif.Driver.OpsText
+import MsVerif.Driver.OpsLift
 
 namespace MsVerif.Driver
 
@@ -43,7 +44,10 @@ def step (st : DState) (line : String) : DState × String :=
               | none =>
                 match opsText kind op args with
                 | some r => (st, r)
-                | none => (st, "bad-op")
+                | none =>
+                  match opsLift st.tables kind op args with
+                  | some r => (st, r)
+                  | none => (st, "bad-op")
   | _ => (st, "bad-op")
 
 end MsVerif.Driver
